@@ -665,7 +665,8 @@ func (fc *followerController) readSnapshotStream(stream proto.OxiaLogReplication
 			slog.Int64("term", fc.term),
 		)
 		if err := loader.AddChunk(snapChunk.Name, snapChunk.ChunkIndex, snapChunk.ChunkCount, snapChunk.Content); err != nil {
-			fc.closeStream(err)
+			// The mutex is already held by handleSnapshot
+			fc.closeStreamNoMutex(err)
 			return totalSize, err
 		}
 
